@@ -166,6 +166,15 @@ def run(ctx):
         ok = len(fw) == 1 and [canon(strip_all_casts(a)) for a in fw[0]["args"]] == [f.params[0]["decl"], lenp]
         res.check(ok, "C13-R1", "%s::setData:forward" % cls.replace(NS, ""), f.loc, "forwards (data, length) unchanged to Payload::setData<Header>",
                   "%s::setData does not forward its data pointer and length unchanged" % cls)
+        allp = paths.enumerate_paths(f)
+        uncond = all(any((callee_name(x) or "").endswith("Payload::setData") for x in q.calls()) for q in allp)
+        res.check(uncond, "C13-R1", "%s::setData:every-path" % cls.replace(NS, ""), f.loc, "the buffer is resized and filled on every path (%d)" % len(allp),
+                  "%s::setData skips the resize/copy on some path while the header length is still updated: the buffer keeps its previous "
+                  "size and content" % cls)
+        for st in setters:
+            unc = all(any((x.get("callee") or {}).get("nm") == st for x in q.calls()) for q in allp)
+            res.check(unc, "C13-R1", "%s::setData:every-path:%s" % (cls.replace(NS, ""), st), f.loc, "%s is called on every path" % st,
+                      "%s::setData does not call %s on every path" % (cls, st))
         hdr_calls = [c for c in f.calls() if "obj" in c and strip_all_casts(c["obj"]).get("k") == "call" and
                      (strip_all_casts(c["obj"]).get("callee") or {}).get("nm") == "getHeader"]
         names = sorted((c.get("callee") or {}).get("nm") for c in hdr_calls)
